@@ -395,16 +395,17 @@ class FatPath:
                 if self._entry is None:
                     raise OSError(errno.EACCES, lang._(
                         'Cannot rename the root directory'))
-                source_parts = tuple(
-                    p.lower() for p in self.resolve(strict=False)._parts)
-                target_parts = tuple(
-                    p.lower() for p in target.resolve(strict=False)._parts)
-                if (
-                    len(target_parts) > len(source_parts) and
-                    target_parts[:len(source_parts)] == source_parts
-                ):
-                    raise OSError(errno.EINVAL, lang._(
-                        'Cannot move a directory into itself'))
+                # Compare identities, not spellings: an ancestor of the target
+                # may name this directory in another case or by its 8.3 alias
+                source_cluster = get_cluster(self._entry, fs.fat_type)
+                for ancestor in target.resolve(strict=False).parents:
+                    if (
+                        ancestor.is_dir() and ancestor._entry is not None and
+                        get_cluster(ancestor._entry, fs.fat_type) ==
+                        source_cluster
+                    ):
+                        raise OSError(errno.EINVAL, lang._(
+                            'Cannot move a directory into itself'))
                 source_parent = self.resolve(strict=False).parent
                 source_parent._resolve()
                 source_index = source_parent._index
